@@ -46,7 +46,17 @@ func cmdReplay(args []string) int {
 	tape := filepath.Join(scratch, "tape.json")
 	td, _ := json.Marshal(doc.Draws)
 	os.WriteFile(tape, td, 0o644)
-	res, out, err := nativeReplay(prog, []replayEntry{{ID: "r0", Harness: doc.Harness, Tape: tape, Tier: doc.Tier, Kind: doc.Kind, Msg: doc.Msg}}, 120*time.Second)
+	// outcomes may depend on Go's map order or, for concurrent harnesses, on the goroutine schedule:
+	// repeat until the violation shows
+	rep := 40
+	for _, p := range props {
+		for _, hs := range p.Harnesses {
+			if hs.Name == doc.Harness && hs.Concurrent {
+				rep = 5000
+			}
+		}
+	}
+	res, out, err := nativeReplay(prog, []replayEntry{{ID: "r0", Harness: doc.Harness, Tape: tape, Tier: doc.Tier, Kind: doc.Kind, Msg: doc.Msg, Repeat: rep}}, 300*time.Second)
 	if err != nil {
 		fmt.Fprintln(os.Stderr, err)
 		return 2
